@@ -32,6 +32,9 @@ static CRED_B: [u8; 300] = {
 static CREDS: [&[u8]; 2] = [&CRED_A, &CRED_B];
 /// registrations: (name, password, credential id index)
 const USERS: [(&str, &[u8], usize); 4] = [("A", b"pwA", 0), ("B", b"pwB", 1), ("C(shares A's password)", b"pwA", 1), ("A(re-registered)", b"pwA", 0)];
+/// user names used as explicit client identities in the "with identities" variant of the population
+const USER_NAMES: [&[u8]; 4] = [b"A", b"B", b"C", b"A"];
+const CLIENT_NAMES: [&[u8]; 4] = [b"A", b"B", b"A", b"A"];
 /// client sessions: (name, password)
 const CLIENTS: [(&str, &[u8]); 4] = [("A", b"pwA"), ("B", b"pwB"), ("A-again", b"pwA"), ("A-wrong-password", b"pwX")];
 
@@ -45,19 +48,20 @@ struct Srv {
 }
 
 /// evaluate the complete routing product over the given sessions; `users`/`clients` index the constant tables
-fn routing(api: &Api, files: &[Option<(usize, Vec<u8>)>], clients: &[(usize, Vec<u8>, Vec<u8>)], servers: &[Srv], cx: &mut Cx, tag: &str, mode: Mode) {
+fn routing(api: &Api, files: &[Option<(usize, Vec<u8>)>], clients: &[(usize, Vec<u8>, Vec<u8>)], servers: &[Srv], cx: &mut Cx, tag: &str, mode: Mode, with_ids: bool) {
     let mut fins: Vec<(usize, usize, Vec<u8>, Vec<u8>)> = vec![];
     for (ci, (cidx, _ke1, cst)) in clients.iter().enumerate() {
         let cpw = CLIENTS[*cidx].1;
         for (sj, s) in servers.iter().enumerate() {
             let expect = s.q == ci
                 && match s.r.and_then(|r| files[r].as_ref()) {
-                    Some((u, _)) => USERS[*u].1 == cpw && USERS[*u].2 == s.c,
+                    Some((u, _)) => USERS[*u].1 == cpw && USERS[*u].2 == s.c && (!with_ids || USER_NAMES[*u] == CLIENT_NAMES[*cidx]),
                     None => false,
                 };
+            let cid_name: Option<&[u8]> = if with_ids { Some(CLIENT_NAMES[*cidx]) } else { None };
             cx.edges += 1;
             let case = || json!({"routing": tag, "deliver": "response", "client": CLIENTS[*cidx].0, "server_session": {"request_of_client": s.q, "record": s.r.map(|r| files[r].as_ref().map(|f| USERS[f.0].0)), "cred": s.c}});
-            match (api.login_finish(&Blob::n(cst), cpw, &Blob::n(&s.ke2), None, None, None, None), expect) {
+            match (api.login_finish(&Blob::n(cst), cpw, &Blob::n(&s.ke2), None, cid_name, None, None), expect) {
                 (Ok((fin, sk, _, _)), true) => {
                     cx.outcome("client-accepts-matched");
                     fins.push((ci, sj, fin, sk));
@@ -117,7 +121,7 @@ fn routing(api: &Api, files: &[Option<(usize, Vec<u8>)>], clients: &[(usize, Vec
 }
 
 /// (a) the stated population, generated in order variant `ord` on one shared tape
-pub fn part_a(api: &Api, ord: usize, seed: u64, cx: &mut Cx, mode: Mode) {
+pub fn part_a(api: &Api, ord: usize, with_ids: bool, seed: u64, cx: &mut Cx, mode: Mode) {
     let mut t = Tape::seeded(seed, &format!("c07a/{}", ord));
     let r = (|| -> Result<(), String> {
         let setup = api.setup(&mut t).map_err(|e| format!("setup {:?}", e))?;
@@ -128,7 +132,7 @@ pub fn part_a(api: &Api, ord: usize, seed: u64, cx: &mut Cx, mode: Mode) {
         }
         let mut regs = vec![None; USERS.len()];
         for u in uorder {
-            let reg = crate::flow::register(api, &mut t, &setup, USERS[u].1, CREDS[USERS[u].2], None, None, None).map_err(|e| format!("register {} {:?}", e.step, e.e))?;
+            let reg = crate::flow::register(api, &mut t, &setup, USERS[u].1, CREDS[USERS[u].2], if with_ids { Some(USER_NAMES[u]) } else { None }, None, None).map_err(|e| format!("register {} {:?}", e.step, e.e))?;
             regs[u] = Some(reg.file);
         }
         for (u, f) in regs.into_iter().enumerate() {
@@ -162,7 +166,9 @@ pub fn part_a(api: &Api, ord: usize, seed: u64, cx: &mut Cx, mode: Mode) {
         let mut servers = vec![];
         for (q, r, c, _dup) in plan {
             let fb = files[r].as_ref().map(|f| Blob::n(&f.1));
-            let (ke2, st) = api.slogin_start(&mut t, &Blob::n(&setup), fb.as_ref(), &Blob::n(&clients[q].1), CREDS[c], None, None, None).map_err(|e| format!("slogin_start {:?}", e))?;
+            // the server states the identity of the user whose record it serves (no record: the requesting client's)
+            let sid: Option<&[u8]> = if !with_ids { None } else if r == 0 { Some(CLIENT_NAMES[q]) } else { Some(USER_NAMES[r - 1]) };
+            let (ke2, st) = api.slogin_start(&mut t, &Blob::n(&setup), fb.as_ref(), &Blob::n(&clients[q].1), CREDS[c], None, sid, None).map_err(|e| format!("slogin_start {:?}", e))?;
             servers.push(Srv { q, r: if r == 0 { None } else { Some(r) }, c, ke2, st });
         }
         // server sessions opened while the server's random generator FAILS (environment fault): if the library still
@@ -174,7 +180,7 @@ pub fn part_a(api: &Api, ord: usize, seed: u64, cx: &mut Cx, mode: Mode) {
                     let mut ft = Tape::seeded(seed, &format!("c07a/failing/{}", ord));
                     ft.fail_at = Some(0);
                     let fb = files[1].as_ref().map(|f| Blob::n(&f.1));
-                    if let Ok((ke2, st)) = api.slogin_start(&mut ft, &Blob::n(&setup), fb.as_ref(), &Blob::n(&clients[q].1), CREDS[0], None, None, None) {
+                    if let Ok((ke2, st)) = api.slogin_start(&mut ft, &Blob::n(&setup), fb.as_ref(), &Blob::n(&clients[q].1), CREDS[0], None, if with_ids { Some(USER_NAMES[0]) } else { None }, None) {
                         cx.outcome("session-opened-although-generator-failed");
                         servers.push(Srv { q, r: Some(1), c: 0, ke2, st });
                     } else {
@@ -184,8 +190,8 @@ pub fn part_a(api: &Api, ord: usize, seed: u64, cx: &mut Cx, mode: Mode) {
             }
         }
         cx.context_done();
-        cx.state(&("a", ord));
-        routing(api, &files, &clients, &servers, cx, &format!("population-order-{}", ord), mode);
+        cx.state(&("a", ord, with_ids));
+        routing(api, &files, &clients, &servers, cx, &format!("population-order-{}{}", ord, if with_ids { "-with-identities" } else { "" }), mode, with_ids);
         cx.path();
         cx.sample(json!({"suite": api.name(), "part": "a", "order": ord, "records": 5, "client_sessions": 4, "server_sessions": servers.len()}));
         Ok(())
@@ -310,7 +316,7 @@ impl Lts for Calls {
             let clients: Vec<(usize, Vec<u8>, Vec<u8>)> = s.clients.iter().flatten().cloned().collect();
             let pos_of = |q: usize| clients.iter().position(|c| c.0 == q).unwrap();
             let servers: Vec<Srv> = s.servers.iter().map(|(_, v)| Srv { q: pos_of(v.q), ..v.clone() }).collect();
-            routing(&self.api, &s.files, &clients, &servers, cx, "maximal-state", Mode::Own);
+            routing(&self.api, &s.files, &clients, &servers, cx, "maximal-state", Mode::Own, false);
         }
     }
     fn describe(&self, a: &Op) -> Value {
@@ -356,10 +362,12 @@ pub fn run(tier: Tier, seed: u64) -> i32 {
     let mut items = vec![];
     for api in all_apis() {
         for ord in 0..if tier.thorough() { 4 } else { 2 } {
-            items.push((api, ord));
+            for with_ids in [false, true] {
+                items.push((api, ord, with_ids));
+            }
         }
     }
-    tot.merge(fw::run_items("C07", &items, |(a, _)| a.name().to_string(), |(api, ord), cx| part_a(api, *ord, seed, cx, Mode::Own)));
+    tot.merge(fw::run_items("C07", &items, |(a, _, _)| a.name().to_string(), |(api, ord, wi), cx| part_a(api, *ord, *wi, seed, cx, Mode::Own)));
     // (b)
     let mut items = vec![];
     for api in all_apis() {
